@@ -198,7 +198,8 @@ def run_mode(chk, programs, results, srcs, events, meta):
 PLACE_FILE = {"second_root": ("root2", "cb/src/b.rs"), "third_root": ("root3", "cb/src/b.rs"), "deep6": ("root1", "cb/src/a/b/c/d/e/f/b.rs"),
               "dir_tests": ("root1", "cb/src/tests/b.rs"), "mod_rs": ("root1", "cb/src/inner/mod.rs"), "main_rs": ("root1", "cb/src/main.rs"),
               "build_rs": ("root1", "cb/src/build.rs"), "space_name": ("root1", "cb/src/b file.rs"), "dotted_name": ("root1", "cb/src/types.v2.rs"),
-              "nonascii_dir": ("root1", "cb/src/mod\u00e8les/b.rs"), "upper_dir": ("root1", "cb/src/SRC_Types/b.rs"), "no_src": ("root1", "cb/b.rs")}
+              "nonascii_dir": ("root1", "cb/src/mod\u00e8les/b.rs"), "upper_dir": ("root1", "cb/src/SRC_Types/b.rs"), "no_src": ("root1", "cb/b.rs"),
+              "symlink_file": ("root1", "cb/src/b.rs")}
 
 
 def places(chk):
@@ -222,7 +223,14 @@ def places(chk):
                  f"{root}/{rel}": "#[typeshare]\npub struct Second { pub alpha: u32 }\n"}
         if root == "root3":
             files["root2/cz/src/lib.rs"] = "pub struct NotShared;\n"
-        cli.make_tree(d, files)
+        if c["place"] == "symlink_file":          # b.rs is a symbolic link to a regular file that lies outside every scanned directory
+            real = files.pop(f"{root}/{rel}")
+            cli.make_tree(d, dict(files, **{"outside/shared_real.rs": real}))
+            os.makedirs(os.path.dirname(os.path.join(d, root, rel)), exist_ok=True)
+            os.symlink(os.path.join(d, "outside", "shared_real.rs"), os.path.join(d, root, rel))
+            files[f"{root}/{rel}"] = real
+        else:
+            cli.make_tree(d, files)
         roots = sorted({f.split("/")[0] for f in files})
         out = os.path.join(d, "out")
         os.makedirs(out)
